@@ -90,22 +90,53 @@ pub fn positive_reply(reply: &[u8]) -> bool {
     }
 }
 
-/// Serves exactly one connection according to `script`.
-pub fn serve_one(listener: TcpListener, script: Vec<Step>) -> Record {
-    let mut rec = Record::default();
-    let Ok((mut s, _)) = listener.accept() else {
-        return rec;
-    };
-    s.set_nodelay(true).ok();
-    s.set_read_timeout(Some(Duration::from_secs(8))).ok();
+/// What the serving loop needs from a transport (plain TCP or TLS over TCP)
+pub trait Peer: Read + Write {
+    /// stop sending (half close where the transport allows it)
+    fn stop_sending(&mut self);
+    /// are octets already waiting? (plain TCP only)
+    fn pending(&mut self) -> bool;
+    fn before_read(&mut self) {}
+}
+
+impl Peer for TcpStream {
+    fn stop_sending(&mut self) {
+        let _ = self.shutdown(Shutdown::Write);
+    }
+    fn pending(&mut self) -> bool {
+        self.set_nonblocking(true).ok();
+        let mut probe = [0u8; 1];
+        let r = matches!(self.peek(&mut probe), Ok(n) if n > 0);
+        self.set_nonblocking(false).ok();
+        r
+    }
+    fn before_read(&mut self) {
+        quickack(self);
+    }
+}
+
+/// Why the serving loop returned
+#[derive(Debug, PartialEq, Eq, Clone, Copy)]
+pub enum Stop {
+    /// the client closed the connection
+    Eof,
+    /// a `STARTTLS` unit was answered positively: the caller must start the TLS handshake
+    StartTls,
+}
+
+/// Runs `script` on `s`. `first_step` is the step to send before reading anything (0 for a
+/// greeting) or `None` when the peer only reacts. Returns when the client closes, or — with
+/// `switch_on_starttls` — right after a positive reply to `STARTTLS` has been written.
+pub fn serve_stream<S: Peer>(s: &mut S, script: &[Step], greet: bool, switch_on_starttls: bool, rec: &mut Record) -> Stop {
     let mut sending = true;
-    let mut send_step = |s: &mut TcpStream, i: usize, rec: &mut Record, sending: &mut bool| {
+    let mut step = 0usize;
+    let mut send_step = |s: &mut S, i: usize, rec: &mut Record, sending: &mut bool| {
         if !*sending {
             return;
         }
         match script.get(i) {
             None => {
-                let _ = s.shutdown(Shutdown::Write);
+                s.stop_sending();
                 *sending = false;
             }
             Some(st) => {
@@ -115,19 +146,20 @@ pub fn serve_one(listener: TcpListener, script: Vec<Step>) -> Record {
                 }
                 rec.steps_sent = i + 1;
                 if st.close {
-                    let _ = s.shutdown(Shutdown::Write);
+                    s.stop_sending();
                     *sending = false;
                 }
             }
         }
     };
-    send_step(&mut s, 0, &mut rec, &mut sending);
+    if greet {
+        send_step(s, 0, rec, &mut sending);
+        step = 1;
+    }
     let mut data_mode = false;
     let mut buf: Vec<u8> = Vec::new();
     let mut chunk = [0u8; 65536];
-    let mut step = 0usize;
     loop {
-        // complete unit in buf?
         let end = if data_mode {
             if buf.starts_with(b".\r\n") {
                 Some(3)
@@ -139,33 +171,61 @@ pub fn serve_one(listener: TcpListener, script: Vec<Step>) -> Record {
         };
         if let Some(end) = end {
             let unit: Vec<u8> = buf.drain(..end).collect();
-            // did the client send more before having any reply to this unit?
-            let mut early = !buf.is_empty();
-            if !early {
-                s.set_nonblocking(true).ok();
-                let mut probe = [0u8; 1];
-                if let Ok(n) = s.peek(&mut probe) {
-                    early = n > 0;
-                }
-                s.set_nonblocking(false).ok();
-            }
+            let early = !buf.is_empty() || s.pending();
             let was_data_cmd = !data_mode && unit.eq_ignore_ascii_case(b"DATA\r\n");
+            let was_starttls = !data_mode && unit.eq_ignore_ascii_case(b"STARTTLS\r\n");
             rec.units.push(unit);
             rec.early.push(early && sending);
+            let answered_positively = sending && script.get(step).map(|st| positive_reply_prefix(&st.reply)).unwrap_or(false);
+            data_mode = was_data_cmd && sending && script.get(step).map(|st| positive_reply(&st.reply)).unwrap_or(false);
+            send_step(s, step, rec, &mut sending);
             step += 1;
-            data_mode = was_data_cmd
-                && sending
-                && script.get(step).map(|st| positive_reply(&st.reply)).unwrap_or(false);
-            send_step(&mut s, step, &mut rec, &mut sending);
+            if switch_on_starttls && was_starttls && answered_positively {
+                if sending {
+                    rec.tail = buf;
+                    return Stop::StartTls;
+                }
+                // the peer said "go ahead" and closed: what follows is a TLS ClientHello, not SMTP
+                return Stop::Eof;
+            }
             continue;
         }
-        quickack(&s);
+        s.before_read();
         match s.read(&mut chunk) {
             Ok(0) | Err(_) => break,
             Ok(n) => buf.extend_from_slice(&chunk[..n]),
         }
     }
     rec.tail = buf;
+    Stop::Eof
+}
+
+/// the reply starts with one complete well-formed positive reply (more octets may follow it)
+pub fn positive_reply_prefix(reply: &[u8]) -> bool {
+    let mut end = 0;
+    loop {
+        let Some(pos) = reply[end..].windows(2).position(|w| w == b"\r\n") else {
+            return false;
+        };
+        let line_end = end + pos + 2;
+        let line = &reply[end..end + pos];
+        if line.len() >= 4 && line[3] == b'-' {
+            end = line_end;
+            continue;
+        }
+        return positive_reply(&reply[..line_end]);
+    }
+}
+
+/// Serves exactly one connection according to `script`.
+pub fn serve_one(listener: TcpListener, script: Vec<Step>) -> Record {
+    let mut rec = Record::default();
+    let Ok((mut s, _)) = listener.accept() else {
+        return rec;
+    };
+    s.set_nodelay(true).ok();
+    s.set_read_timeout(Some(Duration::from_secs(8))).ok();
+    serve_stream(&mut s, &script, true, false, &mut rec);
     rec
 }
 
